@@ -325,13 +325,15 @@ theorem C12_once_not_twice (s : Store) (now : Nat) (bal : Int) :
 /-- `Balance` under `Inv`, read per lease: the value returned is the sum over the credits that `countsMined` /
 `countsUnmined` admit, and both predicates reject every output leased at that instant — a leased output contributes
 exactly nothing, whether it is confirmed, immature, or also spent by an unconfirmed transaction. (`Inv` is the
-representation invariant of C01; its preservation by `insertMinedTx`/`rollback` is run-time checked, see C01.) -/
+representation invariant of C01; `_partial` = it is a hypothesis here.  `C12_excluded_balance` below discharges it:
+`Inv` holds after every chain-consistent history of store calls (`inv_runCalls` in Lemmas/Calls.lean, the same fact
+as `C01_inv_reachable`).) -/
 theorem C12_excluded_balance_partial (s : Store) (hinv : Inv s) (now : Nat) (mat m sy : Int) :
     (∃ v, balance s now mat m sy = .ok v ∧ v = storeTruth s now mat m sy) ∧
     (∀ c : CInfo, isLocked s c.key.outPoint now = true → countsMined s now m sy mat c = false) ∧
     (∀ e : OutPoint × UCredit, isLocked s e.1 now = true → countsUnmined s now e = false) := by
   refine ⟨?_, ?_, ?_⟩
-  · -- the closed form is C01_balance_partial; restated here through the lemmas it is built from
+  · -- the closed form is C01_balance_inv; restated here through the lemmas it is built from
     have hidx : ∀ e ∈ s.unspent, (creditInfo s ⟨e.1.hash, e.2, e.1.index⟩).isSome := by
       intro e he
       apply hinv.indexed
@@ -424,8 +426,14 @@ theorem C12_subsecond_lease_example :
 `LeaseRefines s L`: the lease bucket and `L.leases` agree pointwise (the ledger keeps the instant handed to the caller
 in ns, the store whole seconds), and the store knows exactly the outputs the ledger allows to lease.  The four lease
 events (*lease*, *release*, *sweep*, *clock*) preserve the relation, and the lease queries agree.
-`_partial`: that the chain events (*seen*, *confirmed*, *disconnected*, *abandoned*) preserve the `known` clause is
-part of the full refinement `step_repr`, which is not proved (run-time checked by `spec probe`). -/
+About the suffix `_partial` of the five theorems `C12_lease/_release/_sweep/_clock/_leased_refines_partial`: it was
+given because these theorems assume `LeaseRefines s L` and, taken alone, do not show that the chain events (*seen*,
+*confirmed*, *disconnected*, *abandoned*) preserve its `known` clause.  That gap is CLOSED:
+`leaseRefines_of_good` (with `known_of_good`, Lemmas/RefLease.lean) derives `LeaseRefines s L` from the simulation
+relation `Good s L`, and `good_history` / `good_reachable` (Lemmas/RefAll.lean, with `good_lease`, `good_release`,
+`good_sweep`, `good_clock` for the lease events) show that `Good` — hence `LeaseRefines` — holds after EVERY
+chain-consistent history of events, reorgs included.  The names are kept only because Lemmas/RefLease.lean imports
+this file and uses the five theorems as its per-event steps: stating the closed form here would be an import cycle. -/
 
 theorem find?_filter_ne {α : Type} (l : List (OutPoint × α)) (op op' : OutPoint) :
     (l.filter fun p => p.1 != op).find? (fun p => p.1 == op') =
@@ -514,7 +522,10 @@ private theorem leasable_leases (L : Ledger.Ledger) (ls : List (OutPoint × Ledg
 
 /-- **lease** refines: `LockOutput` at the ledger's clock does to the bucket what `Ledger.apply (.lease …)` does to
 the ledger's leases (refused for unknown outputs and for outputs held by another id, granted/extended otherwise, the
-stored seconds being exactly the granted instant) -/
+stored seconds being exactly the granted instant).
+`_partial` in the name is historical: the gap it named (the chain events preserving the `known` clause) is closed by
+`leaseRefines_of_good` (Lemmas/RefLease.lean) + `good_history` (Lemmas/RefAll.lean): `LeaseRefines` holds after every
+chain-consistent history.  Not renamed: those files import this one (import cycle). -/
 theorem C12_lease_refines_partial (s : Store) (L : Ledger.Ledger) (id : Nat) (op : OutPoint) (d : Int)
     (h : LeaseRefines s L) :
     LeaseRefines (match lockOutput s L.now id op d with | .ok (_, s') => s' | .error _ => s)
@@ -583,7 +594,10 @@ theorem C12_lease_refines_partial (s : Store) (L : Ledger.Ledger) (id : Nat) (op
     simp only [hkl, Bool.not_false, if_true]
     exact h
 
-/-- **release** refines -/
+/-- **release** refines.
+`_partial` in the name is historical: the gap it named (the chain events preserving the `known` clause) is closed by
+`leaseRefines_of_good` (Lemmas/RefLease.lean) + `good_history` (Lemmas/RefAll.lean): `LeaseRefines` holds after every
+chain-consistent history.  Not renamed: those files import this one (import cycle). -/
 theorem C12_release_refines_partial (s : Store) (L : Ledger.Ledger) (id : Nat) (op : OutPoint)
     (h : LeaseRefines s L) :
     LeaseRefines (match unlockOutput s L.now id op with | .ok s' => s' | .error _ => s)
@@ -684,7 +698,10 @@ theorem lookup_filter_val {α : Type} (P : α → Bool) : ∀ (l : List (OutPoin
       · simp [List.filter_cons, hP]
 
 /-- **sweep** refines: `DeleteExpiredLockedOutputs` removes from the bucket exactly the leases the ledger drops
-(keys of the bucket and of the ledger's lease list are unique) -/
+(keys of the bucket and of the ledger's lease list are unique).
+`_partial` in the name is historical: the gap it named (the chain events preserving the `known` clause) is closed by
+`leaseRefines_of_good` (Lemmas/RefLease.lean) + `good_history` (Lemmas/RefAll.lean): `LeaseRefines` holds after every
+chain-consistent history.  Not renamed: those files import this one (import cycle). -/
 theorem C12_sweep_refines_partial (s : Store) (L : Ledger.Ledger) (h : LeaseRefines s L)
     (hn : NodupKeys s.locked) (hnL : (L.leases.map (·.1)).Nodup) :
     LeaseRefines (deleteExpiredLockedOutputs s L.now) (Ledger.apply L .sweep) := by
@@ -717,12 +734,18 @@ theorem C12_sweep_refines_partial (s : Store) (L : Ledger.Ledger) (h : LeaseRefi
         · simp [hc, this.1, this.2]
         · simp [hc]
 
-/-- **clock** refines (the store has no clock of its own: the relation does not mention it) -/
+/-- **clock** refines (the store has no clock of its own: the relation does not mention it).
+`_partial` in the name is historical: the gap it named (the chain events preserving the `known` clause) is closed by
+`leaseRefines_of_good` (Lemmas/RefLease.lean) + `good_history` (Lemmas/RefAll.lean): `LeaseRefines` holds after every
+chain-consistent history.  Not renamed: those files import this one (import cycle). -/
 theorem C12_clock_refines_partial (s : Store) (L : Ledger.Ledger) (t : Nat) (h : LeaseRefines s L) :
     LeaseRefines s (Ledger.apply L (.clock t)) := ⟨fun op => h.known op, fun op => h.leases op⟩
 
 /-- **the lease queries agree**: an output is leased at the ledger's clock in the store iff it is in the ledger, under
-the same id and until the same instant — in particular at the boundary instant `now = expiry` both say free -/
+the same id and until the same instant — in particular at the boundary instant `now = expiry` both say free.
+`_partial` in the name is historical: the hypothesis `LeaseRefines s L` holds after every chain-consistent history
+(`leaseRefines_of_good` in Lemmas/RefLease.lean + `good_history` in Lemmas/RefAll.lean; used that way in
+Lemmas/RefObs.lean).  Not renamed: those files import this one (import cycle). -/
 theorem C12_leased_refines_partial (s : Store) (L : Ledger.Ledger) (h : LeaseRefines s L) (op : OutPoint) :
     isLocked s op L.now = Ledger.leased L op := by
   have := leaseOf_refines h op
